@@ -71,7 +71,24 @@ type paceRec struct {
 type rtRec struct {
 	Seq         string
 	Entry, Exit time.Duration
+	BodyEOF     time.Duration // when the response body had been read to its end
 }
+
+// clockBody is a response body whose end-of-stream is an event on the virtual clock.
+type clockBody struct {
+	rec  *rtRec
+	data *strings.Reader
+	on   bool
+}
+
+func (b *clockBody) Read(p []byte) (int, error) {
+	n, err := b.data.Read(p)
+	if err == io.EOF && b.on && b.rec.BodyEOF == 0 {
+		b.rec.BodyEOF = vsched.TimeNow().Sub(vsched.Base())
+	}
+	return n, err
+}
+func (b *clockBody) Close() error { return nil }
 
 type world struct {
 	p          params
@@ -83,7 +100,7 @@ type world struct {
 	stops      []bool
 	misuse     string
 	pace       []paceRec
-	rts        []rtRec
+	rts        []*rtRec
 	resultsID  uintptr
 	attackerID string
 	inv        string
@@ -136,7 +153,7 @@ func (pc pacer) Rate(time.Duration) float64 { return 1 }
 type fakeRT struct{ w *world }
 
 func (f fakeRT) RoundTrip(r *http.Request) (*http.Response, error) {
-	rec := rtRec{Seq: r.Header.Get("X-Vegeta-Seq")}
+	rec := &rtRec{Seq: r.Header.Get("X-Vegeta-Seq")}
 	if f.w.p.ClockHit {
 		rec.Entry = vsched.TimeNow().Sub(vsched.Base())
 	}
@@ -145,7 +162,8 @@ func (f fakeRT) RoundTrip(r *http.Request) (*http.Response, error) {
 		rec.Exit = vsched.TimeNow().Sub(vsched.Base())
 	}
 	f.w.rts = append(f.w.rts, rec)
-	return &http.Response{StatusCode: 200, Status: "200 OK", Body: io.NopCloser(strings.NewReader("")), Header: http.Header{}, Request: r}, nil
+	body := &clockBody{rec: rec, data: strings.NewReader("ok"), on: f.w.p.ClockHit && f.w.p.Mode == vsched.ClockTicking}
+	return &http.Response{StatusCode: 200, Status: "200 OK", Body: body, Header: http.Header{}, Request: r}, nil
 }
 
 var errTgt = errors.New("targeter failed")
@@ -393,6 +411,9 @@ func (w *world) end(s *vsched.Sched, r *vsched.Result) (string, string) {
 					}
 					if ts+x.Latency < rr.Exit {
 						return fmt.Sprintf("C05: seq %d ends at %d before its transport returned at %d", x.Seq, ts+x.Latency, rr.Exit), outcome
+					}
+					if rr.BodyEOF != 0 && ts+x.Latency < rr.BodyEOF {
+						return fmt.Sprintf("C05: seq %d ends at %d before its response body was read to the end at %d", x.Seq, ts+x.Latency, rr.BodyEOF), outcome
 					}
 				}
 			}
